@@ -13,6 +13,7 @@ import Umya.Driver.C14
 import Umya.Driver.C15
 import Umya.Driver.C02
 import Umya.Driver.C02Sheet
+import Umya.Driver.C02Pkg
 import Umya.Driver.C05
 import Umya.Driver.C11
 import Umya.Driver.C03
@@ -52,6 +53,7 @@ def dispatch (st : DState) (line : String) : DState × String :=
   | "c03" :: args => let (s, r) := Umya.Driver.C03.handle st.c03 args; ({ st with c03 := s }, r)
   | "c06" :: args => let (s, r) := Umya.Driver.C06.handle st.c06 args; ({ st with c06 := s }, r)
   | "c02" :: "sheetbridge" :: args => (st, Umya.Driver.C02Sheet.handle st.c02.parts args)
+  | "c02" :: "pkgbridge" :: args => (st, Umya.Driver.C02Pkg.handle st.c02.parts args)
   | "c02" :: args => let (s, r) := Umya.Driver.C02.handle st.c02 args; ({ st with c02 := s }, r)
   | "c07" :: args => let (s, r) := Umya.Driver.C07.handle st.c07 args; ({ st with c07 := s }, r)
   | _ => (st, "bad-op")
